@@ -226,6 +226,7 @@ func (c *Server) Start() {
 	c.Lock()
 	c.IsStarted = true
 	c.Unlock()
+	verifAt("server.started", c)
 	// Wait for closing of the channel
 	<-c.closeitChannel
 }
